@@ -204,10 +204,11 @@ def gen_cases(ctx, tier):
         progs = [[(rng.choice([10, 10, 10, 11, 1, 3, 2]), rng.randint(0, 1)) for _ in range(rng.randint(1, 6))]
                  for _f in range(nf)]
         cases.append(core.fmt_case([60000, nk], progs, core.random_sched(rng, nk, rng.randint(50, 2500), rng.randrange(3))))
-    for _ in range(n):
-        nk = rng.choice([2, 2, 3])
-        progs = [[(10, rng.randint(0, 1))] * rng.randint(1, 4) for _f in range(rng.randint(1, 2))]
-        cases.append(core.fmt_case([60000, nk], progs, core.random_sched(rng, nk, rng.randint(30, 1200), rng.randrange(3))))
+    for _ in range(2 * n):
+        nk = rng.choice([2, 3, 3, 4])
+        progs = [[(10, rng.randint(0, 1))] * rng.randint(1, 4) for _f in range(rng.randint(1, 3))]
+        cases.append(core.fmt_case([60000, nk], progs,
+                                   core.random_sched(rng, nk, rng.randint(30, 1500), rng.choice([0, 1, 2, 3, 3, 3]))))
     # the main fiber's first blocking call is a sleep; the other fibers sleep and yield
     ns = n // 2
     for _ in range(ns):
@@ -216,7 +217,7 @@ def gen_cases(ctx, tier):
                  for _f in range(rng.randint(1, 4))]
         cases.append(core.fmt_case([60000, nk, rng.choice([1, 2])], progs,
                                    core.random_sched(rng, nk, rng.randint(30, 1500), rng.randrange(3))))
-    ctx.coverage["case_distribution"] = {"random_programs": n, "join_heavy_programs": nj, "create_join_only": n,
+    ctx.coverage["case_distribution"] = {"random_programs": n, "join_heavy_programs": nj, "create_join_only": 2 * n,
                                          "main_sleeps_first": ns}
     return cases
 
@@ -258,9 +259,19 @@ def accept_traces(ctx, cases, impl):
     return len(labs) - len(rejected), rejected
 
 
+def lint_obligation(ctx):
+    """source obligation shared by C01, C02 and C04: no pointer to the calling kernel thread's manager is used across a
+    call that may move the fiber to another kernel thread (tools/lint/stale_manager.py; the defect class of F-C01)"""
+    import sys
+    rc, out = core.sh([sys.executable, os.path.join(core.VERIF, "tools", "lint", "stale_manager.py"), core.REPO])
+    ctx.oblige("source-lint:manager pointer re-fetched after every call that may switch kernel threads", rc == 0, out)
+    ctx.coverage["stale_manager_lint"] = "clean" if rc == 0 else out.strip().split("\n")[:5]
+
+
 def run(ctx):
     ctx.trusted = TRUSTED
     core.coq_property(ctx, "Properties_C01.v", THEOREMS)
+    lint_obligation(ctx)
     exe = build(ctx)
     if exe:
         cases = corpus() + gen_cases(ctx, ctx.tier)
